@@ -1,10 +1,10 @@
 --------------------------- MODULE Trace_Incentive ---------------------------
 (* Trace validation of the real incentive contract against Incentive.tla.      *)
-EXTENDS Incentive, Json, IOUtils
+EXTENDS Incentive, WeightHist, Json, IOUtils
 
 Rec == ndJsonDeserialize(IOEnv.TRACE)
-VARIABLES l, st, meta, lastClaim, cbs, wstart, sh, taint
-vars == <<l, st, meta, lastClaim, cbs, wstart, sh, taint>>
+VARIABLES l, st, meta, lastClaim, cbs, wstart, sh, taint, wh
+vars == <<l, st, meta, lastClaim, cbs, wstart, sh, taint, wh>>
 
 Unchanged(ev) == << <<"C11.rejected.unchanged", ev.dpre = ev.dpost>> >>
 Untouched(s, t) ==
@@ -27,6 +27,25 @@ NextTaint(ev) ==
          [] ev.ev = "claim" -> [taint EXCEPT !.stale[ev.actor] = @ \/ taint.ever[ev.actor]]
          [] OTHER -> taint
 Tainted(tt) == tt.ep \/ \E u \in Users : tt.stale[u]
+
+\* ---- the weight histories as WeightHist.tla keeps them ----------------------------------------------------------
+\* wh : [Users -> Seq([e, w])] is the specification's own: set from the observation at a reset only, then moved by the
+\* transcribed operators and never re-aligned with what the contract stores (design rule 1).
+ClaimFlows(ev, cur) ==
+  LET av == SelectSeq(ev.pre.flows, LAMBDA f : f.start <= cur) IN
+  [i \in DOMAIN av |-> [start |-> av[i].start, fend |-> FinalEnd(av[i]),
+                        skip |-> cur > FinalEnd(av[i]) /\ av[i].claimed = FinalAmount(av[i])]]
+NextWh(ev, t) ==
+  IF ev.res # "ok" THEN wh
+  ELSE CASE ev.ev \in {"open", "expand"} -> [wh EXCEPT ![ev.args.recv] = AfterChange(@, st.epoch, t.aw[ev.args.recv])]
+         [] ev.ev = "close" -> [wh EXCEPT ![ev.actor] = AfterChange(@, st.epoch, t.aw[ev.actor])]
+         [] ev.ev = "claim" -> [wh EXCEPT ![ev.actor] = AfterClaim(@, ClaimFlows(ev, st.epoch), st.epoch, lastClaim[ev.actor])]
+         [] OTHER -> wh
+\* what the share query answers according to the transcription, given the snapshot the validator saw being taken
+ModelShare(h, t, gws) == ShareOf(ShareWeight(h, t.epoch), gws)
+\* the transcription itself puts this epoch's shares above 100 %: known finding S9 at work
+S9Predicted(w2, t, ws) ==
+  t.snapshot /\ ws.ep = t.epoch /\ DEC \prec SetSum([v \in Users |-> ModelShare(w2[v], t, ws.gw)], Users)
 
 Ident(ev) == IF ev.args.lbl = "" THEN [k |-> "id", id |-> ev.args.id, label |-> ""]
              ELSE [k |-> "label", id |-> -1, label |-> ev.args.lbl]
@@ -87,6 +106,15 @@ ShareChecksX(ev, t, lc) ==
   << <<"X.share=weight-at-the-start-of-the-epoch/snapshot",
         (t.snapshot /\ w.ep = t.epoch /\ ~NextCbs(ev, t) /\ Zero \prec w.gw) =>
            \A v \in Users : lc[v] = t.epoch \/ t.share[v] = FromRatio(w.aw[v], w.gw)>> >>
+\* drift (it restates today's code): the contract's stored histories and the answers of its share query are the ones
+\* the transcription arrives at.  "former-S9-neighbourhood" keeps count of how much the old, wider excuse covered.
+WhChecks(ev, t) ==
+  LET w2 == NextWh(ev, t)  ws == NextWstart(ev, t) IN
+  << <<"drift.weight-history=WeightHist-transcription", \A v \in Users : t.wh[v] = w2[v]>>,
+     <<"drift.share=share-of-the-transcribed-history",
+        (t.snapshot /\ ws.ep = t.epoch) => \A v \in Users : t.share[v] = ModelShare(w2[v], t, ws.gw)>>,
+     <<"drift.S9-predicted-only-inside-its-former-neighbourhood",
+        S9Predicted(w2, t, ws) => Tainted(NextTaint(ev))>> >>
 EvChecks(ev, t) ==
   LET u == ev.actor IN
   (IF ev.res # "ok" THEN Unchanged(ev) \o RefusalChecks(ev) \o (IF ev.ev = "claim" THEN WalkChecks(ev, t, u) ELSE <<>>)
@@ -102,7 +130,9 @@ EvChecks(ev, t) ==
                                 \o WalkChecks(ev, t, u)
           [] ev.ev \in {"snapshot", "newepoch"} -> Untouched(st, t)
           [] OTHER -> << <<"TRACE.unknown-event", FALSE>> >>)
-  \o StateChecksC11(t) \o StateChecksC12(t) \o StateChecksC13(t) \o SharesChecks(t, Tainted(NextTaint(ev)))
+  \o StateChecksC11(t) \o StateChecksC12(t) \o StateChecksC13(t)
+  \o SharesChecks(t, S9Predicted(NextWh(ev, t), t, NextWstart(ev, t)))
+  \o WhChecks(ev, t)
   \o ShareChecksX(ev, t, IF ev.ev = "claim" /\ ev.res = "ok" THEN [lastClaim EXCEPT ![ev.actor] = st.epoch] ELSE lastClaim)
 
 Report(ev, bad) ==
@@ -111,14 +141,17 @@ Report(ev, bad) ==
                       line |-> l, ev |-> ev.ev, bad |-> bad]))
 Init == /\ l = 1 /\ st = [lpbal |-> "0"] /\ meta = [fee |-> "0"] /\ lastClaim = [u \in Users |-> -1] /\ cbs = FALSE
         /\ wstart = [aw |-> [u \in Users |-> Zero], gw |-> Zero, ep |-> -1] /\ sh = <<>> /\ taint = NoTaint
+        /\ wh = [u \in Users |-> <<>>]
 Next ==
   /\ l <= Len(Rec)
   /\ LET ev == Rec[l] IN
        IF ev.ev = "reset"
        THEN /\ st' = ev.obs /\ meta' = ev.cfg /\ lastClaim' = [u \in Users |-> -1] /\ cbs' = FALSE
             /\ wstart' = [aw |-> ev.obs.aw, gw |-> Zero, ep |-> -1] /\ sh' = <<>> /\ taint' = NoTaint
+            /\ wh' = [u \in Users |-> ev.obs.wh[u]]
        ELSE /\ Report(ev, Failed(EvChecks(ev, ev.obs)))
             /\ st' = ev.obs /\ meta' = meta /\ cbs' = NextCbs(ev, ev.obs) /\ wstart' = NextWstart(ev, ev.obs) /\ sh' = NextSh(ev.obs) /\ taint' = NextTaint(ev)
+            /\ wh' = NextWh(ev, ev.obs)
             /\ lastClaim' = IF ev.ev = "claim" /\ ev.res = "ok" THEN [lastClaim EXCEPT ![ev.actor] = st.epoch] ELSE lastClaim
   /\ l' = l + 1
 Spec == Init /\ [][Next]_vars
